@@ -42,7 +42,7 @@ theorem step_outs_addressed (s : St) (cid : Nat) (x : Step) : ∀ o ∈ (step s 
     rcases ho with (h1 | h1) <;> (rw [mem_optOut h1]; exact Or.inl rfl)
   | stop =>
     intro o ho
-    simp only [step, stop] at ho
+    simp only [step, stopW] at ho
     cases hr : s.running with
     | none => rw [hr] at ho; cases ho
     | some p =>
@@ -87,7 +87,7 @@ theorem running_is_older (steps : List Step) : ∀ (s : St) (cid : Nat),
           · rw [if_neg h6] at hr'; exact Nat.lt_succ_of_lt (h j' c' hr')
       | validate cc => exact Nat.lt_succ_of_lt (h j' c' hr')
       | stop =>
-        simp only [step, stop] at hr'
+        simp only [step, stopW] at hr'
         cases hrr : s.running with
         | none => rw [hrr] at hr'; simp only at hr'; rw [hrr] at hr'; cases hr'
         | some p => obtain ⟨a, b⟩ := p; rw [hrr] at hr'; cases hr'
